@@ -294,6 +294,14 @@ func (s *Server[StateT]) handleReadFile(ctx *Context[StateT]) error {
 	}
 
 	if err := s.Handler.HandleReadFile(ctx, toRead, off, w); err != nil {
+		// As long as no length is announced client can be told that nothing can be read (like original server does),
+		// afterwards only the end of connection tells it.
+		if w.dataLength < 0 {
+			s.Logger.WarnContext(ctx, "Read file failed", logutil.ErrorAttr(err))
+
+			return ctx.wr.SendReadFileResultLen(-1)
+		}
+
 		return err
 	}
 
